@@ -305,6 +305,25 @@ func VerifC14_KIn() {
 	}
 	gotS := c14Verdict(c14Load(env, "(s:validate v \"s\")"))
 	vAssert(gotS == WrongType, "wrong type wins")
+	// membership is by equal?, which compares numbers numerically: under s:number an int member
+	// admits the equal float (what a JSON document delivers) and a float member the equal int
+	vAssume(x >= -1000)
+	vAssume(x <= 1000)
+	vAssume(a >= -1000)
+	vAssume(a <= 1000)
+	vAssume(b >= -1000)
+	vAssume(b <= 1000)
+	env.PutGlobal(lisp.Symbol("xf"), lisp.Float(float64(x)))
+	env.PutGlobal(lisp.Symbol("af"), lisp.Float(float64(a)))
+	c14Load(env, "(set 'vn (s:make-validator \"t\" s:number (s:in a b))) (set 'vf (s:make-validator \"t\" s:number (s:in af b)))")
+	gotF := c14Verdict(c14Load(env, "(s:validate vn xf)"))
+	gotI := c14Verdict(c14Load(env, "(s:validate vf x)"))
+	if x == a || x == b {
+		vAssert(gotF == "ok", "an int member admits the float of the same value")
+		vAssert(gotI == "ok", "a float member admits the int of the same value")
+	} else {
+		vAssert(gotF == FailedConstraint && gotI == FailedConstraint, "an unlisted number is rejected whatever its representation")
+	}
 }
 
 // composition: s:not and nested constraints; a misclassification anywhere flips a pass.
